@@ -36,6 +36,8 @@ type c01case struct {
 	Shift   int    `json:"shift"`
 	Workers int    `json:"workers"`
 	TimeMs  int    `json:"time_ms"`
+	Full    bool   `json:"full"`  // kind read: OptionsFullFileBatch (the whole file delivered as ONE batch)
+	FlatB   int    `json:"flatb"` // kind read: size of the read buffer of ReadGenbank / ReadEMBL (0 = production size)
 }
 
 type c01rec struct {
@@ -66,6 +68,10 @@ type c01obs struct {
 	Sizes []c01size `json:"sizes,omitempty"`
 	Split int       `json:"split"`
 	Err   string    `json:"err,omitempty"`
+	// kind read: the batch numbers in the order in which the reader DELIVERED them, and the records in
+	// that same (arrival) order
+	Orders  []int    `json:"orders,omitempty"`
+	Arrived []c01rec `json:"arrived,omitempty"`
 }
 
 func c01splitter(f string) obiformats.LastSeqRecord {
@@ -257,6 +263,14 @@ func c01sweep(c c01case) c01obs {
 	return o
 }
 
+// deadline of one public-reader case: time_ms when given, 20 s otherwise
+func c01readMs(c c01case) int {
+	if c.TimeMs > 0 {
+		return c.TimeMs
+	}
+	return 20000
+}
+
 func c01read(c c01case) (o c01obs) {
 	o.Kind = "read"
 	defer func() {
@@ -266,8 +280,12 @@ func c01read(c c01case) (o c01obs) {
 	}()
 	var it obiiter.IBioSequence
 	var err error
-	opts := []obiformats.WithOption{obiformats.OptionsParallelWorkers(c.Workers), obiformats.OptionsReadQualities(c.WithQ)}
+	opts := []obiformats.WithOption{obiformats.OptionsParallelWorkers(c.Workers), obiformats.OptionsReadQualities(c.WithQ), obiformats.OptionsFullFileBatch(c.Full)}
 	rd := c01reader(c.Rd, c.File)
+	if c.FlatB > 0 {
+		obiformats.VerifFlatFileChunkSize = c.FlatB
+		defer func() { obiformats.VerifFlatFileChunkSize = 1024 * 1024 * 128 }()
+	}
 	switch c.Fmt {
 	case "fasta":
 		it, err = obiformats.ReadFasta(rd, opts...)
@@ -303,10 +321,20 @@ func c01read(c c01case) (o c01obs) {
 	}()
 	select {
 	case <-done:
-	case <-time.After(20 * time.Second):
+	case <-time.After(time.Duration(c01readMs(c)) * time.Millisecond):
 		o.Err = "timeout"
 		o.Fatal = true
 		return o
+	}
+	inOrder := true
+	for i, b := range batches {
+		o.Orders = append(o.Orders, b.order)
+		inOrder = inOrder && b.order == i
+	}
+	if !inOrder { // otherwise the arrival order is the order of Recs
+		for _, b := range batches {
+			o.Arrived = append(o.Arrived, b.recs...)
+		}
 	}
 	// consumers re-establish the file order from the batch numbers: they must be exactly 0..n-1
 	sort.SliceStable(batches, func(i, j int) bool { return batches[i].order < batches[j].order })
